@@ -1244,6 +1244,10 @@ class RTCSctpTransport(AsyncIOEventEmitter):
         if uint32_gt(self._last_sacked_tsn, chunk.cumulative_tsn):
             return
 
+        # ignore a SACK which acknowledges data that was never sent
+        if uint32_gte(chunk.cumulative_tsn, self._local_tsn):
+            return
+
         received_time = time.time()
         self._last_sacked_tsn = chunk.cumulative_tsn
         cwnd_fully_utilized = self._flight_size >= self._cwnd
